@@ -243,6 +243,12 @@ pub struct ArenaRun {
 
 /// Execute one single-arena history.
 pub fn run_arena_case(bytes: &[u8], uniform: bool, record_trace: bool) -> ArenaRun {
+    let (h, _) = split_case(bytes);
+    let hd = decode_header(&h);
+    run_arena_case_opts(bytes, SimOpts { uniform: if uniform { Some(uniform_align(&h, hd.m)) } else { None }, record_trace, ..Default::default() })
+}
+
+pub fn run_arena_case_opts(bytes: &[u8], opts: SimOpts) -> ArenaRun {
     let (h, ops) = split_case(bytes);
     let hd = decode_header(&h);
     let _ = k_meta();
@@ -250,7 +256,6 @@ pub fn run_arena_case(bytes: &[u8], uniform: bool, record_trace: bool) -> ArenaR
     ledger::begin_case(crate::runner::fnv(bytes));
     ledger::set_sentinel(sent);
     tok_reset();
-    let opts = SimOpts { uniform: if uniform { Some(uniform_align(&h, hd.m)) } else { None }, flip_fallible: false, record_trace, ..Default::default() };
     let mut sim = make_sim(hd.m, 1, opts);
     if sim.construct(&hd) {
         for op in ops {
@@ -331,6 +336,20 @@ impl Engine for ArenaEngine {
         let r = run_arena_case(bytes, self.profile.uniform && !mixed_mode(bytes), false);
         let mut out = CaseOut { hash: fnv(bytes), stats: r.stats.to_vec(), ..Default::default() };
         out.nontrivial = nontrivial(self.prop, &r.stats);
+        if self.prop == "C07" && r.stats[St::LimitSetOps as usize] > 0 {
+            // metamorphic part: "an arena with no limit behaves as if the feature did not exist"
+            let a = run_arena_case_opts(bytes, SimOpts { record_trace: true, limit_mode: 1, ..Default::default() });
+            let b = run_arena_case_opts(bytes, SimOpts { record_trace: true, limit_mode: 2, ..Default::default() });
+            if a.trace.len() != b.trace.len() {
+                out.viol.push(format!("the history without any limit call runs {} steps, the same history with every limit set and immediately removed runs {}", a.trace.len(), b.trace.len()));
+            } else if let Some(i) = (0..a.trace.len()).find(|&i| a.trace[i] != b.trace[i]) {
+                let (x, y) = (&a.trace[i], &b.trace[i]);
+                out.viol.push(format!(
+                    "step {i}: setting a limit and removing it again changed the arena's behaviour: outcome {} vs {}, placement ({}, {}) vs ({}, {}), chunk_capacity {} vs {}, allocated_bytes {} vs {}, chunks {} vs {}, allocator traffic {:?} vs {:?}",
+                    x.outcome, y.outcome, x.chunk, x.off, y.chunk, y.off, x.cap, y.cap, x.ab, y.ab, x.nchunks, y.nchunks, x.ev, y.ev
+                ));
+            }
+        }
         for v in r.viol {
             if v.prop == self.prop {
                 out.viol.push(format!("op {}: {}", v.op, v.msg));
